@@ -66,6 +66,8 @@ def _apply(emb, ra, rb, op, arg):
     if op == "rectangle_grid":
         return [_tag(emb, p) for p in ra.rectangle_grid(arg[0], arg[1])]
     if op in ("x_cuttable", "y_cuttable"):
+        if len(arg) > 3 and arg[3]:       # the documented default ratio (1%): the argument is left out
+            return int(bool(getattr(ra, op)(emb.coord(arg[0]))))
         return int(bool(getattr(ra, op)(emb.coord(arg[0]), arg[1] / arg[2])))
     if op == "point_inside":
         from fractions import Fraction as F
@@ -178,6 +180,24 @@ def random_cases(rng: random.Random, n: int) -> list[dict]:
                 ev.append({"op": "y_cuttable", "arg": [c, 1, rng.choice([100, 10, 4])]})
                 ev.append({"op": "point_inside", "arg": [2 * a[0] + rng.randint(-3, 2 * w + 3), 2 * a[1] + rng.randint(-3, 2 * h + 3)]})
             cases.append({"kind": "one", "a": ta, "b": [0, 0, 0, 0, "g", 0, 0], "events": ev})
+    # elongated rectangles cut next to a side: the stated fraction decides (fraction 0: every cut strictly inside is allowed;
+    # the default is 1%; seeded C18-9: an explicit 0 must not be taken for "not given")
+    for _ in range(max(20, n // 10)):
+        w, h = rng.randint(2, 6), rng.randint(100, 400)
+        if rng.random() < 0.5:
+            w, h = h, w
+        x0, y0 = rng.randint(0, 8), rng.randint(0, 8)
+        ta = [x0, y0, x0 + w, y0 + h, rng.choice("gr"), 0, 0]
+        ev = []
+        for _k in range(4):
+            rat = rng.choice([[0, 1], [0, 1], [1, 1000], [1, 100, 1], [1, 100], [1, 4]])
+            # (cuts exactly ON a side are left to the block above, with fractions >= 1%: with fraction 0 and coordinates that
+            #  are not exact in binary, the rounding of the side decides them, not the geometry)
+            cx = x0 + rng.choice([1, 2, w - 1, w // 2, -1, w + 1])
+            cy = y0 + rng.choice([1, 2, h - 1, h // 2, -1, h + 1])
+            ev.append({"op": "x_cuttable", "arg": [cx] + rat})
+            ev.append({"op": "y_cuttable", "arg": [cy] + rat})
+        cases.append({"kind": "one", "a": ta, "b": [0, 0, 0, 0, "g", 0, 0], "events": ev})
     return cases
 
 
